@@ -177,7 +177,7 @@ type runCfg struct {
 
 // goOnly: lines the Lean driver is not asked about (judged on the
 // implementation alone).
-func goOnly(line string) bool { return strings.HasPrefix(line, "Q ") }
+func goOnly(line string) bool { return strings.HasPrefix(line, "Q ") || strings.HasPrefix(line, "TY ") }
 
 // runStream runs case indices [0,count) of a stream.
 func runStream(cfg runCfg, stream string, count int, st *stats) {
